@@ -76,7 +76,7 @@ type ControlFile struct {
 	CRC      uint32 `json:"crc"`
 	CRCValid bool   `json:"crc_valid"`
 
-	// Inferred PostgreSQL version
+	// Inferred PostgreSQL version (0 = unknown)
 	PGVersionMajor int `json:"pg_version_major"`
 }
 
@@ -295,30 +295,34 @@ func pgEpochToTime(pgTime int64) time.Time {
 	return time.Unix(pgTime, 0).UTC()
 }
 
-// inferPGVersion attempts to determine PostgreSQL major version
+// inferPGVersion attempts to determine PostgreSQL major version; 0 means unknown.
 //
-// PG_CONTROL_VERSION is 1201 in PostgreSQL 12 and 1300 in 13 through 16, so from 12 on the
-// major version is told by the catalog version number, which every major release bumps and
-// no minor release changes: 201909212 (12), 202007201 (13), 202107181 (14), 202209061 (15),
-// 202307071 (16).
+// PG_CONTROL_VERSION is 1201 in PostgreSQL 12, 1300 in 13 through 16 and 1700 in 17, so the major
+// version is told by the catalog version number, which every major release bumps and no minor
+// release changes: 201909212 (12), 202007201 (13), 202107181 (14), 202209061 (15),
+// 202307071 (16), 202406281 (17).  Any other catalog version under a control version of 12 or
+// later (a development snapshot, a release newer than this table, a damaged file) is not guessed
+// at: a wrong major version would be worse than none.  Older control versions are told apart by
+// the control version itself, as before.
 func inferPGVersion(controlVersion, catalogVersion uint32) int {
+	switch catalogVersion {
+	case 202406281:
+		return 17
+	case 202307071:
+		return 16
+	case 202209061:
+		return 15
+	case 202107181:
+		return 14
+	case 202007201:
+		return 13
+	case 201909212:
+		return 12
+	}
 	switch {
 	case controlVersion >= 1201:
-		switch {
-		case catalogVersion >= 202307071:
-			return 16
-		case catalogVersion >= 202209061:
-			return 15
-		case catalogVersion >= 202107181:
-			return 14
-		case catalogVersion >= 202007201:
-			return 13
-		}
-		return 12
+		return 0
 	case controlVersion >= 1100:
-		if catalogVersion >= 201909212 {
-			return 12
-		}
 		return 11
 	case controlVersion >= 1002:
 		return 10
